@@ -30,6 +30,8 @@ func main() {
 // selectItems returns the contract items to verify for a property (or all).
 func (w *World) selectItems(prop, fn string) []*Item {
 	var out []*Item
+	pkgsSeen := map[string]bool{}
+	defer func() {}()
 	for _, it := range w.items {
 		if it.Kind != "func" && it.Kind != "lemma" {
 			continue
@@ -44,6 +46,23 @@ func (w *World) selectItems(prop, fn string) []*Item {
 			continue
 		}
 		out = append(out, it)
+		pkgsSeen[it.Pkg] = true
+	}
+	// well-foundedness of the recursive spec functions of the packages involved
+	if fn == "" || strings.HasPrefix(fn, "wf:") {
+		for _, it := range w.items {
+			if it.Kind == "pure" && w.recursive[it] && (pkgsSeen[it.Pkg] || prop == "") {
+				cp := *it
+				cp.Property = prop
+				cp.Opts = map[string]string{}
+				for _, o := range w.items {
+					if o.Pkg == it.Pkg && o.Mode == "bytebv" {
+						cp.Mode = "bytebv"
+					}
+				}
+				out = append(out, &cp)
+			}
+		}
 	}
 	return out
 }
